@@ -283,7 +283,8 @@ def gen_rust(shapes, with_setters=False):
     out = ['// GENERATED by /verif/tools/shapes.py -- derive shapes for the correspondence harness; do not edit\n',
            '#![allow(non_camel_case_types, dead_code, unused_imports, clippy::all)]\n',
            'use crate::sx::*;\nuse crate::wire::Wire;\nuse crate::h_derive::{run, ret_sx};\nuse structdiff::{Difference, StructDiff};\n',
-           'use std::collections::{BTreeMap, BTreeSet, HashMap, HashSet, LinkedList, VecDeque};\n\n']
+           'use std::collections::{BTreeMap, BTreeSet, HashMap, HashSet, LinkedList, VecDeque};\n',
+           '#[cfg(feature = "nanoserde")]\nuse nanoserde::{DeBin, SerBin};\n\n']
     seen = set()
     for sh in shapes:
         gen_types(sh, out, seen)
